@@ -148,6 +148,15 @@ theorem D18_counterexample :
 
 /-! ## sentences -/
 
+/-- (D46 as repaired) a period followed by a blank inside a closed literal does not end the entry -/
+example : sentences "05 X PIC X(12) VALUE 'A. B' OCCURS 4 TIMES.\n05 Y PIC X.\n".toList =
+    [("05".toList, "X PIC X(12) VALUE 'A. B' OCCURS 4 TIMES".toList), ("05".toList, "Y PIC X".toList)] := by decide
+
+/-- a quote that is never closed is an ordinary character: the entry still ends at its period -/
+example : sentences "05 W PIC X VALUE 'open.\n05 V PIC X.\n".toList =
+    [("05".toList, "W PIC X VALUE 'open".toList), ("05".toList, "V PIC X".toList)] := by decide
+
+
 theorem dropWhile_append_ws (ws s : Line) (h : ws.all isWs = true) :
     (ws ++ s).dropWhile isWs = s.dropWhile isWs := by
   induction ws with
